@@ -86,9 +86,10 @@ func GenGJ(t *rapid.T, o GeomOpts) GJ {
 				tt = append(tt, s)
 			}
 		}
-		if len(tt) > 0 {
-			types = tt
+		if len(tt) == 0 {
+			return GJ{T: "GeometryCollection"} // only collections allowed but no depth left: an empty one
 		}
+		types = tt
 	}
 	typ := rapid.SampledFrom(types).Draw(t, "type")
 	fne := o.FirstNonEmpty
